@@ -4,7 +4,7 @@
    CVC natoms m.. cell comp pos(3n) F(3n) fc -> "value jd ft forces(3n)"
    comp:  D g g os | DZ g g og ax ay az os | DXY g g og ax ay az os | A g g g os | DH g g g g os
           | GY k id.. | RM k id.. ref(3k) ne copy(3k).. cen | EV k id.. ref(3k) evec(3k) cen
-          | RMR k id.. ref(3k) ne copy(3k).. | EVR k id.. ref(3k) evec(3k)   (rotated; each step then carries m00..m22 jd per such comp)
+          | RMR k id.. ref(3k) ne copy(3k).. | EVR k id.. ref(3k) evec(3k)   (rotated; each step then carries q0 q1 q2 q3 jd per such comp)
    g: G k id.. | U x y z      og: - | g      cen, cell: N | C x y z      os: 0|1 *)
 open Model
 open X_fops
@@ -35,9 +35,9 @@ let () =
           if w.(!p) = "-" then (Stdlib.incr p; None) else Some (group ()) in
         let cen () = match next () with "N" -> None | "C" -> Some (v3 ()) | s -> failwith ("cen " ^ s) in
         (* rotated components: rotation matrix and Jacobian derivative per step, looked up by the positions closure *)
-        let rtabs : (float field * ((((float * float) * float) * ((float * float) * float)) * ((float * float) * float)) * float) list ref list ref = ref [] in
+        let rtabs : (float field * (((float * float) * float) * float) * float) list ref list ref = ref [] in
         let newtab () = let t = ref [] in rtabs := !rtabs @ [t]; t in
-        let idm = ((((1.0, 0.0), 0.0), ((0.0, 1.0), 0.0)), ((0.0, 0.0), 1.0)) in
+        let idm = (((1.0, 0.0), 0.0), 0.0) in
         let comp () =
           match next () with
           | "D" -> let a = group () in let b = group () in CDistance (a, b, nb ())
@@ -72,8 +72,8 @@ let () =
            let cv = { cv_comps = comps; cv_hide = hide; cv_subtract = sub; cv_samestep = same; cv_kT = kt } in
            let ns = ni () in
            let inputs = List.init ns (fun _ -> let ps = field n in let fs = field n in let fb = nf () in
-                                       List.iter (fun t -> let r1 = v3 () in let r2 = v3 () in let r3 = v3 () in let j = nf () in
-                                                   t := (ps, ((r1, r2), r3), j) :: !t) !rtabs;
+                                       List.iter (fun t -> let q0 = nf () in let q1 = nf () in let q2 = nf () in let q3 = nf () in let j = nf () in
+                                                   t := (ps, (((q0, q1), q2), q3), j) :: !t) !rtabs;
                                        { e_pos = ps; e_force = fs; e_fb = fb }) in
            let (_, outs) = eng_run fops pi cell mass cv inc (eng_init fops) inputs in
            let one (i : float einput) (o : float cvout) =
